@@ -124,6 +124,37 @@ def _select(pdk, ti, fi, vi):
     return not why or _fail(f"{pdk} {tp.name}/{fam.name}/{vth.name}: " + why)
 
 
+def _val(x):
+    from decimal import Decimal
+    if isinstance(x, h.Prefixed):
+        return x.number * Decimal(10) ** x.prefix.value
+    if isinstance(x, (int, float)):
+        return Decimal(str(x))
+    return None
+
+
+def _sizes(pdk, emod, params, kw):
+    """'sized with the given values or the PDK's defaults': for devices whose parameter class carries a width and a
+    length, each must equal the given value, or - when not given - the PDK's own default table entry"""
+    wn = next((n for n in ("w", "r_width", "c_width") if hasattr(params, n)), None)
+    ln = next((n for n in ("l", "r_length", "c_length") if hasattr(params, n)), None)
+    if wn is None or ln is None:
+        return ""
+    pd = __import__(pdkmod(pdk).__name__ + ".primitives.prim_dicts", fromlist=["x"])
+    default = None
+    for v in vars(pd).values():
+        if isinstance(v, dict) and emod.name in v and isinstance(v[emod.name], tuple) and len(v[emod.name]) == 2:
+            default = v[emod.name]
+    for given, attr, idx in ((kw.get("w"), wn, 0), (kw.get("l"), ln, 1)):
+        got = _val(getattr(params, attr))
+        if given is not None:
+            if got != _val(given):
+                return f"{attr} = {getattr(params, attr)} although {given} was given"
+        elif default is not None and got != _val(default[idx]):
+            return f"{attr} = {getattr(params, attr)}, the PDK default for {emod.name} is {default[idx]}"
+    return ""
+
+
 PRIMS = {"xtors": "Mos", "ress": "PhysicalResistor", "caps": "PhysicalCapacitor", "diodes": "Diode", "bjts": "Bipolar", "vpps": "PhysicalCapacitor"}
 
 
@@ -145,9 +176,11 @@ def _model(pdk, table, idx, sized, mult):
     prim = fit[0] if fit else prims[0]  # no generic primitive has this device's terminals: the nearest one
     kw = {"model": model}
     fields = set(prim.Params.__params__) if hasattr(prim.Params, "__params__") else set()
-    if sized:
-        if "w" in fields: kw["w"] = 3 * h.prefix.µ
-        if "l" in fields: kw["l"] = 2 * h.prefix.µ
+    # sized: 0 = both defaulted, 1 = both given, 2 = only w given, 3 = only l given
+    if sized in (1, 2) and "w" in fields:
+        kw["w"] = 3 * h.prefix.µ
+    if sized in (1, 3) and "l" in fields:
+        kw["l"] = 2 * h.prefix.µ
     if mult and "mult" in fields:
         kw["mult"] = 3
     m = h.Module(name="T")
@@ -172,7 +205,7 @@ def _model(pdk, table, idx, sized, mult):
         pkg = h.to_proto(m)
     except Exception as ex:
         return _fail(f"{pdk}.{table}[{model}]: compiled design invalid: {str(ex).splitlines()[-1][:200]}")
-    why = _device_ok(pkg) or _netlists(pkg)
+    why = _device_ok(pkg) or _netlists(pkg) or _sizes(pdk, emod, of.params, kw)
     if why:
         return _fail(f"{pdk}.{table}[{model}]: " + why)
     # compile twice = compile once; equal parameters give the same device call
@@ -321,14 +354,14 @@ def select(pi, ti, fi, vi):
         return _select(PDKS[pi], ti, fi, vi)
 
 
-@harness("C15", args="pi: int, tb: int, idx: int, sized: bool, mult: bool", pre=["1 <= pi <= 2", "0 <= tb <= 4", "0 <= idx <= 20"],
-         tiers={"quick": {"timeout": 170, "parts": parts_product(parts_over("pi", (1, 2)), parts_over("tb", range(5)))}}, sample=(1, 1, 3, True, False),
-         bounds="every entry of every Sky130 / GF180 device table (mos, res, cap, diode, bjt) selected by model name through the generic primitive with the same terminals, sizes given or defaulted, multiplier given or not: the instance targets that entry, every device port is connected once, the package is closed, spice and spectre netlists emit, compiling twice = once, equal parameters give the same call object",
+@harness("C15", args="pi: int, tb: int, idx: int, sized: int, mult: bool", pre=["1 <= pi <= 2", "0 <= tb <= 4", "0 <= idx <= 20", "0 <= sized <= 3"],
+         tiers={"quick": {"timeout": 170, "parts": parts_product(parts_over("pi", (1, 2)), parts_over("tb", range(5)))}}, sample=(1, 1, 3, 2, False),
+         bounds="every entry of every Sky130 / GF180 device table (mos, res, cap, diode, bjt) selected by model name through the generic primitive with the same terminals, both sizes / only w / only l / neither given (given values or the PDK's own default-table entries must arrive), multiplier given or not: the instance targets that entry, every device port is connected once, the package is closed, spice and spectre netlists emit, compiling twice = once, equal parameters give the same call object",
          generalises="table / entry / parameter-path selectors (solver-enumerated)", outside="parameter VALUES (sizes are fixed 3u / 2u); vpp capacitors (not technology-mapped)")
 def model(pi, tb, idx, sized, mult):
     P = env.pick
-    pi, tb, idx = P(pi, 1, 2), P(tb, 0, 4), P(idx, 0, 20)
-    sized, mult = bool(sized), bool(mult)
+    pi, tb, idx, sized = P(pi, 1, 2), P(tb, 0, 4), P(idx, 0, 20), P(sized, 0, 3)
+    mult = bool(mult)
     with env.notrace():
         return _model(PDKS[pi], TABLES[tb], idx, sized, mult)
 
